@@ -1,6 +1,7 @@
 package main
 
 import (
+	"math/big"
 	"fmt"
 	"go/token"
 	"go/types"
@@ -75,6 +76,8 @@ func (x *Exec) execInstr(fr *Frame, in ssa.Instruction, reach *Term, st *State) 
 		fr.vals[in] = x.doMakeInterface(fr, in, reach, st)
 	case *ssa.TypeAssert:
 		x.doTypeAssert(fr, in, reach, st)
+	case *ssa.Select:
+		x.doSelect(fr, in, reach, st)
 	case *ssa.Extract:
 		fr.vals[in] = x.get(fr, in.Tuple).field(in.Index)
 	case *ssa.FieldAddr:
@@ -650,4 +653,57 @@ func (x *Exec) doMakeClosure(fr *Frame, in *ssa.MakeClosure, st *State) {
 	}
 	x.closures[r.S] = &closureInfo{fn: in.Fn.(*ssa.Function), bindings: bs}
 	fr.vals[in] = scalar(in.Type(), r)
+}
+
+// doSelect models a select statement whose cases are all receives: some case is chosen (any index; for a
+// non-blocking select also -1), and the received values are arbitrary well-typed values - nothing is assumed
+// about what other goroutines send. If the ghosts SEL.idx / SEL.last are declared they record the chosen
+// case and the value it received (reference-sorted values only), so that loop `step` clauses can speak
+// about "the message handled in this iteration".
+func (x *Exec) doSelect(fr *Frame, in *ssa.Select, reach *Term, st *State) {
+	for _, s := range in.States {
+		if s.Dir != types.RecvOnly {
+			panic("select with a send case is outside the modelled subset")
+		}
+	}
+	addUnique(&x.report.Abstracted, "select over channel receives (any case, arbitrary received values)")
+	idx := x.vc.fresh("sel.idx", bvSort(64))
+	lo := int64(0)
+	if !in.Blocking {
+		lo = -1
+	}
+	x.vc.assume(tTrue, mkAnd(bvCmp("bvsle", mkBV(big.NewInt(lo), 64), idx), bvCmp("bvslt", idx, mkBVu(uint64(len(in.States)), 64))))
+	out := &Sym{T: in.Type(), L: []*Term{idx, x.vc.fresh("sel.ok", SBool)}}
+	var last *Term
+	for i, s := range in.States {
+		et := s.Chan.Type().Underlying().(*types.Chan).Elem()
+		v := x.freshSym(et, fmt.Sprintf("sel.recv%d", i), st.ctr, reach)
+		out.L = append(out.L, v.L...)
+		if len(v.L) == 1 && v.L[0].Sort == SInt {
+			if last == nil {
+				last = mkInt64(0)
+			}
+			last = mkIte(mkEq(idx, mkBVu(uint64(i), 64)), v.L[0], last)
+		}
+	}
+	fr.vals[in] = out
+	if x.isGhost("SEL.idx") {
+		st.ghost["SEL.idx"] = x.vc.name("G.SEL.idx", idx)
+	}
+	if x.isGhost("SEL.last") && last != nil {
+		st.ghost["SEL.last"] = x.vc.name("G.SEL.last", last)
+	}
+	k := x.vc.ord("select")
+	if fr.top && fr.contract != nil {
+		for _, p := range fr.contract.Points {
+			if p.CallName != "select" || p.CallOrd != k {
+				continue
+			}
+			env := x.baseEnv(fr, st)
+			for _, a := range p.Assumes {
+				addUnique(&x.report.Abstracted, "ASSUMED about the values received by select #"+strconv.Itoa(k)+": "+a.Src)
+				x.vc.assume(reach, x.evalClause(env, a))
+			}
+		}
+	}
 }
